@@ -154,7 +154,7 @@ Go(M, c0, sym, ph, evs, fuel, dn, cons, raised) ==
                  IF p.s # "ok" THEN {Out(evs, [c EXCEPT !.st = p.s], cons, raised)}
                  ELSE Go(M, [c EXCEPT !.K = Push(FS(IF p.j = 0 THEN a.eb ELSE a.br[p.j].b), K1)], sym, ph, evs, fuel - 1, dn, cons, raised)
     IN IF ph = "aft"
-       THEN {Out(evs, c, cons, raised)} \cup perform                       \* timing slack: stop here, or go on
+       THEN (IF sym = END THEN {} ELSE {Out(evs, c, cons, raised)}) \cup perform   \* timing slack: stop here (there is a next symbol to run with), or go on
        ELSE IF dn = 0 THEN Go(M, [c EXCEPT !.K = K1], sym, ph, evs, fuel - 1, 0, cons, raised)     \* dropped
        ELSE perform
   ELSE IF ph = "aft" THEN {Out(evs, c, cons, raised)}                     \* next statement needs a symbol
